@@ -1,10 +1,11 @@
 #!/usr/bin/env python3
 """Confirm a seeded change in its scratch worktree: demo passes without / fails with the change, the
-repository's baseline suite still passes with it.  usage: confirm_seed.py CXX N"""
+repository's baseline suite still passes with it.  usage: [SEED_PREFIX=seed2] confirm_seed.py CXX N"""
 import json, os, re, subprocess, sys, shutil
 pid, n = sys.argv[1], sys.argv[2]
-wt = f"/tmp/seed_{pid}"
-out = f"/tmp/seed_{pid}_out/change{n}"
+pre = os.environ.get("SEED_PREFIX", "seed")          # "seed" = round 1, "seed2" = round 2
+wt = f"/tmp/{pre}_{pid}"
+out = f"/tmp/{pre}_{pid}_out/change{n}"
 meta = json.load(open(f"{out}/meta.json"))
 blob = json.dumps(meta)
 m = re.search(r"--test (\w+)", blob)
